@@ -179,7 +179,7 @@ class MetricReceiver(CarbonServerProtocol, TimeoutMixin):
       datapoint = (time.time(), datapoint[1])
     res = settings.MIN_TIMESTAMP_RESOLUTION
     if res:
-      datapoint = (int(datapoint[0]) // res * res, datapoint[1])
+      datapoint = (int(datapoint[0] // res * res), datapoint[1])
     events.metricReceived(metric, datapoint)
     self.resetTimeout()
 
